@@ -2,6 +2,7 @@ import TakVerif.Impl.PTN
 import TakVerif.Impl.PTNInst
 import TakVerif.Proofs.PTNIter
 import TakVerif.Proofs.PTNRender
+import TakVerif.Proofs.PTNScan
 import TakVerif.Proofs.PTNLink
 
 /-! C12: PTN files — positional lookup (`Iterator`, `PositionAtMove`) and render/parse.
